@@ -558,8 +558,8 @@ def stores_param_summaries(P):
     """fn name -> {param index: owner param index}: the function stores pointer parameter i into a
     member of the object parameter j points to (an `adopt`/`set`/`attach` helper): the caller's
     resource is handed over to that object."""
-    if id(P) in _sp_cache:
-        return _sp_cache[id(P)]
+    if '_sp_cache' in P.__dict__.setdefault("_memo", {}):
+        return P.__dict__["_memo"]['_sp_cache']
     summ = {}
     for f in P.functions.values():
         names = [p["n"] for p in f.params]
@@ -575,7 +575,7 @@ def stores_param_summaries(P):
                 base = base.c[0].strip_casts() if base.c else None
             if base is not None and base.k == "DeclRefExpr" and base.get("dk") == "param" and "*" in (r.t or ""):
                 summ.setdefault(f.name, {})[names.index(r.name)] = names.index(base.name)
-    _sp_cache[id(P)] = summ
+    P.__dict__.setdefault("_memo", {})['_sp_cache'] = summ
     return summ
 
 
@@ -586,8 +586,8 @@ def fresh_out_summaries(P):
     """fn name -> set(param index): the function stores a block it has just allocated (malloc / calloc /
     strdup, directly or through a local that only ever holds such a result) into `*param` and nowhere
     else - an allocating helper with an out-parameter."""
-    if id(P) in _fo_cache:
-        return _fo_cache[id(P)]
+    if '_fo_cache' in P.__dict__.setdefault("_memo", {}):
+        return P.__dict__["_memo"]['_fo_cache']
     summ = {}
     for f in P.functions.values():
         names = [p["n"] for p in f.params]
@@ -635,15 +635,15 @@ def fresh_out_summaries(P):
                 else:
                     only_on_success = False
                 summ.setdefault(f.name, {})[names.index(pn)] = only_on_success
-    _fo_cache[id(P)] = summ
+    P.__dict__.setdefault("_memo", {})['_fo_cache'] = summ
     return summ
 
 
 def frees_param_summaries(P):
     """fn name -> set(param index) that the function releases (free/fclose/destroy of the parameter
     itself on some path), computed to a fixpoint over direct calls."""
-    if id(P) in _fp_cache:
-        return _fp_cache[id(P)]
+    if '_fp_cache' in P.__dict__.setdefault("_memo", {}):
+        return P.__dict__["_memo"]['_fp_cache']
     rel = set(RELEASE)
     for v in list(CTOR.values()) + list(INIT.values()):
         rel |= v
@@ -668,7 +668,7 @@ def frees_param_summaries(P):
                         if pi not in summ.setdefault(f.name, set()):
                             summ[f.name].add(pi)
                             changed = True
-    _fp_cache[id(P)] = summ
+    P.__dict__.setdefault("_memo", {})['_fp_cache'] = summ
     return summ
 
 
